@@ -460,6 +460,7 @@ static std::string truncLaws(int style, int rstyle, bool uns, const mpq_class& x
   if (rstyle == 0) dir = x > 0 ? 2 : 3;
   if (rstyle == 1) dir = x > 0 ? 3 : 2;
   if (r != l && r != l + 1) return "result is neither floor nor floor+1 of the argument";
+  if (mpq_class(l) == x) return r == l ? "" : "integer argument not returned unchanged";
   bool eqL = eqDoc(style, mpq_class(l), x, eps), eqU = eqDoc(style, mpq_class(l + 1), x, eps);
   if (dir == 2) {
     if (r == l + 1 && !eqU) return "downward: result above the argument without being equal within epsilon";
@@ -755,11 +756,12 @@ template <class T> Result execFCmpV(const std::string& kind, int style, const st
 // round / trunc on an arbitrary value: documented behaviour decided up to rounding (see eqSlack)
 template <class T> std::string froundLaws(int style, int rstyle, const mpq_class& x, const mpq_class& eps, const mpz_class& r) {
   const int p = std::numeric_limits<T>::digits;
-  if (abs(x) + 2 >= pow2q(p)) return "";  // I <-> T conversions of the neighbouring integers may round: correspondence only
   mpq_class R(r);
-  if (abs(R - x) >= 1) return "result is not within distance 1 of the argument";
   mpz_class l = floorQ(x);
+  // an integer argument (every value from 2^(p-1) on is one) must come back unchanged; a non-integer value of T is below
+  // 2^(p-1), so both neighbouring integers are values of T and the conversions T(lower), T(upper) are exact
   if (mpq_class(l) == x) return r == l ? "" : "integer argument not returned unchanged";
+  if (abs(R - x) >= 1) return "result is not within distance 1 of the argument";
   int snapped = eqSlack<T>(style, mpq_class(truncQ(x)), x, eps);
   if (snapped != 0) { stat(snapped > 0 ? "fround_branch_equals_integer_part" : "fround_branch_open_rounding"); return ""; }
   mpq_class pp = x - mpq_class(l), qq = mpq_class(l + 1) - x;
@@ -775,14 +777,14 @@ template <class T> std::string froundLaws(int style, int rstyle, const mpq_class
   return "";
 }
 template <class T> std::string ftruncLaws(int style, int rstyle, bool uns, const mpq_class& x, const mpq_class& eps, const mpz_class& r) {
-  const int p = std::numeric_limits<T>::digits;
-  if (abs(x) + 2 >= pow2q(p)) return "";
   mpz_class l = floorQ(x);
   if (uns) {
     int z = eqSlack<T>(style, x, 0, eps);
     if (z == 1) return r == 0 ? "" : "unsigned target: argument equal to 0 within epsilon did not give 0";
     if (z < 0) return "";
   }
+  // integer arguments (all values from 2^(digits-1) on) come back unchanged; for the others both neighbours are values of T
+  if (mpq_class(l) == x) return r == l ? "" : "integer argument not returned unchanged";
   if (r != l && r != l + 1) return "result is neither floor nor floor+1 of the argument";
   int eqL = eqSlack<T>(style, mpq_class(l), x, eps), eqU = eqSlack<T>(style, mpq_class(l + 1), x, eps);
   stat(eqU == 1 ? "ftrunc_branch_snap_up" : eqU < 0 || eqL < 0 ? "ftrunc_branch_open_rounding" : eqL == 1 ? "ftrunc_branch_near_below" : "ftrunc_branch_plain");
@@ -824,6 +826,7 @@ template <class T, class I> Result execFRT(bool isRound, int style, int rstyle, 
   stat(std::string(isRound ? "fround_" : "ftrunc_") + RSTYLES[rstyle]);
   if (ea.dflt) stat("frt_default_eps");
   if (abs(X) + 2 >= pow2q(std::numeric_limits<T>::digits)) stat("frt_beyond_exact_integers");
+  if (mpq_class(floorQ(X)) == X && eqSlack<T>(style, X + 1, X, E) == 1) stat("frt_integer_with_equal_successor");
   return res;
 }
 
@@ -931,7 +934,7 @@ static std::string mfRoundDoc(int style, int rstyle, double v, double eps, int r
 static std::string mfTruncDoc(int style, int rstyle, double v, double eps, int t) {
   double l = std::floor(v);
   if (!(t == l || t == l + 1)) return "result is neither floor nor floor+1 of the argument";
-  if (std::fabs(v) >= 16) return "";  // l+1 is not a value of the format: only the correspondence is checked
+  if (l == v) return t == v ? "" : "integer argument not returned unchanged";  // includes every |v| >= 16
   bool eqL = mfEqDoc(style, l, v, eps), eqU = mfEqDoc(style, l + 1, v, eps);
   int dir = rstyle;
   if (rstyle == 0) dir = v > 0 ? 2 : 3;
